@@ -730,11 +730,13 @@ class Sym:
                     return Poly.sym("wrapsub(%s,%s)" % (a, b))
             return Poly.sym(self.name(t))
         if k == "var":
-            if t[1] in self._busy_vars:
-                # a read of the local inside its own redefinition (`i = i + 1`): the value it had at the loop header
-                hs = self.header_sym(t[1]) if len(t) > 2 else None     # position-tagged reads only (obligation engine)
-                return Poly.sym(hs) if hs else Poly.sym("loopvar")
             vpos = t[2] if len(t) > 2 else None
+            bkey = (t[1], vpos)
+            if bkey in self._busy_vars:
+                # a read of the local inside its own redefinition (`i = i + 1`) that resolves to itself: the value it
+                # had at the loop header
+                hs = self.header_sym(t[1]) if vpos is not None else None     # position-tagged reads only (obligation engine)
+                return Poly.sym(hs) if hs else Poly.sym("loopvar")
             if vpos is not None and self.path_blocks is None and not self.an.terms.defs.partial[t[1]]:
                 # flow-sensitive resolution by reaching definitions (no concrete path set)
                 rd = self.reaching(t[1], vpos)
@@ -744,18 +746,18 @@ class Sym:
                         return Poly.sym(hs)
                 elif len(rd) == 1:
                     d1 = self.def_at(t[1], next(iter(rd)))
-                    self._busy_vars.add(t[1])
+                    self._busy_vars.add(bkey)
                     try:
                         return self.poly(self._def_term(d1))
                     finally:
-                        self._busy_vars.discard(t[1])
+                        self._busy_vars.discard(bkey)
             defs = self.var_defs(t[1], vpos)
             if defs:
-                self._busy_vars.add(t[1])
+                self._busy_vars.add(bkey)
                 try:
                     ps = [self.poly(d) for d in defs]
                 finally:
-                    self._busy_vars.discard(t[1])
+                    self._busy_vars.discard(bkey)
                 if all(p is not None for p in ps):
                     if all(p == ps[0] for p in ps):
                         return ps[0]
